@@ -37,11 +37,11 @@ def entries_of(ctx, fns):
     return out
 
 
-def inter(ctx, adt, track, tag, carry=None):
+def inter(ctx, adt, track, tag, carry=None, user_stop=False):
     key = ("inter", adt, tag)
     if key not in ctx.cache:
         fns = impl_fns(ctx, adt)
-        ctx.cache[key] = Inter(ctx.prog, ctx.mods, fns, entries_of(ctx, fns), track, carry=carry)
+        ctx.cache[key] = Inter(ctx.prog, ctx.mods, fns, entries_of(ctx, fns), track, carry=carry, user_stop=user_stop)
     return ctx.cache[key]
 
 
